@@ -38,6 +38,37 @@ type PExpr struct {
 	Op   string `json:"op,omitempty"` // + - *
 	A    *PExpr `json:"a,omitempty"`
 	B    *PExpr `json:"b,omitempty"`
+	// call: Multi = the arguments are Args (any number, also none); otherwise the only argument is A
+	Multi bool     `json:"multi,omitempty"`
+	Args  []*PExpr `json:"args,omitempty"`
+	// aggcall: (SELECT Name(v, Args...) FROM Tab) or, without Tab, over the inline rows
+	// (SELECT Name(c1, Args...) FROM (SELECT r1 AS c1 UNION ALL SELECT r2 ...) s)
+	Tab  string  `json:"tab,omitempty"`
+	Rows []int64 `json:"rows,omitempty"`
+}
+
+// PParam is one parameter of a function: @Name [DEFAULT Def].
+type PParam struct {
+	Name string `json:"name"`
+	Def  *PExpr `json:"def,omitempty"`
+}
+
+// CallArgs returns the argument expressions of a call.
+func CallArgs(e *PExpr) []*PExpr {
+	if e.Multi || e.K == "aggcall" {
+		return e.Args
+	}
+	return []*PExpr{e.A}
+}
+
+// FuncParams returns the parameters of a function declaration: Params when
+// present (any number, also none: then NoParams is set), else the single
+// required parameter Var.
+func FuncParams(s *PStmt) []PParam {
+	if len(s.Params) > 0 || s.NoParams || s.K == "agg" {
+		return s.Params
+	}
+	return []PParam{{Name: s.Var}}
 }
 
 // PCond is a condition.
@@ -63,6 +94,9 @@ type PCond struct {
 //	break continue exit
 //	return    RETURN [E]
 //	func      DECLARE Name FUNCTION (@Var) AS BEGIN Body END
+//	          or, with Params / NoParams: DECLARE Name FUNCTION ([@p [DEFAULT e], ...]) AS BEGIN Body END
+//	disposevar disposefun disposetab   DISPOSE @Name / DISPOSE FUNCTION Name / DISPOSE VIEW Name
+//	exit      EXIT [N]   (N > 0: the procedure ends with the forced-exit error of that code)
 //	table     DECLARE Name VIEW (v)
 //	insert    INSERT INTO Name VALUES (E)
 //	cursor    DECLARE Name CURSOR FOR <Rows literal | SELECT v FROM Table ORDER BY v NULLS FIRST>
@@ -95,6 +129,11 @@ type PStmt struct {
 	Pos     string    `json:"pos,omitempty"`
 	N       int64     `json:"n,omitempty"`
 	Var2    string    `json:"var2,omitempty"`
+	// func: all parameters (overrides Var); NoParams: a function without parameters
+	Params   []PParam `json:"params,omitempty"`
+	NoParams bool     `json:"no_params,omitempty"`
+	// agg: DECLARE Name AGGREGATE (Cur [, parameters]) AS BEGIN Body END - Cur is the pseudo cursor over the grouped values
+	Cur string `json:"cur,omitempty"`
 }
 
 // ---------------------------------------------------------------------
@@ -117,7 +156,31 @@ func RenderPExpr(e *PExpr) string {
 	case "bin":
 		return "(" + RenderPExpr(e.A) + " " + e.Op + " " + RenderPExpr(e.B) + ")"
 	case "call":
-		return e.Name + "(" + RenderPExpr(e.A) + ")"
+		args := CallArgs(e)
+		parts := make([]string, len(args))
+		for i, a := range args {
+			parts[i] = RenderPExpr(a)
+		}
+		return e.Name + "(" + strings.Join(parts, ", ") + ")"
+	case "aggcall":
+		col, from := "v", e.Tab
+		if e.Tab == "" {
+			col = "c1"
+			parts := make([]string, len(e.Rows))
+			for i, r := range e.Rows {
+				if i == 0 {
+					parts[i] = fmt.Sprintf("SELECT %d AS c1", r)
+				} else {
+					parts[i] = fmt.Sprintf("SELECT %d", r)
+				}
+			}
+			from = "(" + strings.Join(parts, " UNION ALL ") + ") s"
+		}
+		args := ""
+		for _, a := range e.Args {
+			args += ", " + RenderPExpr(a)
+		}
+		return "(SELECT " + e.Name + "(" + col + args + ") FROM " + from + ")"
 	case "tcount":
 		return "(SELECT COUNT(*) FROM " + e.Name + ")"
 	case "tmax":
@@ -270,7 +333,17 @@ func renderStmt(b *pBuf, s *PStmt, ind int) {
 	case "continue":
 		line("CONTINUE;")
 	case "exit":
-		line("EXIT;")
+		if s.N > 0 {
+			line("EXIT %d;", s.N)
+		} else {
+			line("EXIT;")
+		}
+	case "disposevar":
+		line("DISPOSE @%s;", s.Name)
+	case "disposefun":
+		line("DISPOSE FUNCTION %s;", s.Name)
+	case "disposetab":
+		line("DISPOSE VIEW %s;", s.Name)
 	case "return":
 		if s.E == nil {
 			line("RETURN;")
@@ -278,7 +351,27 @@ func renderStmt(b *pBuf, s *PStmt, ind int) {
 			line("RETURN %s;", RenderPExpr(s.E))
 		}
 	case "func":
-		line("DECLARE %s FUNCTION (@%s) AS BEGIN", s.Name, s.Var)
+		ps := FuncParams(s)
+		parts := make([]string, len(ps))
+		for i, p := range ps {
+			parts[i] = "@" + p.Name
+			if p.Def != nil {
+				parts[i] += " DEFAULT " + RenderPExpr(p.Def)
+			}
+		}
+		line("DECLARE %s FUNCTION (%s) AS BEGIN", s.Name, strings.Join(parts, ", "))
+		renderBlock(b, s.Body, ind+1)
+		line("END;")
+	case "agg":
+		parts := []string{s.Cur}
+		for _, p := range FuncParams(s) {
+			t := "@" + p.Name
+			if p.Def != nil {
+				t += " DEFAULT " + RenderPExpr(p.Def)
+			}
+			parts = append(parts, t)
+		}
+		line("DECLARE %s AGGREGATE (%s) AS BEGIN", s.Name, strings.Join(parts, ", "))
 		renderBlock(b, s.Body, ind+1)
 		line("END;")
 	case "table":
@@ -371,6 +464,9 @@ const (
 	PErrFetchLength = "fetch_length"
 	PErrUndeclTable = "undeclared_table"
 	PErrRedeclTable = "redeclared_table"
+	PErrArgLength   = "argument_length"
+	PErrUndeclTemp  = "undeclared_temporary_table" // DISPOSE VIEW of a name that is not a visible temporary table
+	PErrForcedExit  = "forced_exit"                // EXIT n with n > 0
 )
 
 type pErr struct {
@@ -400,7 +496,8 @@ type pObj struct {
 	// an inner declaration of the same name shadowed this object and the
 	// shadowing block has ended since
 	released bool
-	active   int // f: invocations in progress
+	active   int  // f: invocations in progress
+	pseudo   bool // c: the pseudo cursor of an aggregate invocation (cannot be opened, closed or disposed)
 }
 
 type pFrame struct {
@@ -431,17 +528,20 @@ type POpt struct {
 
 // PStats describes what a run exercised.
 type PStats struct {
-	Steps           int
-	ShadowDecls     int // declarations that shadowed an outer object
-	ShadowReadAfter int // uses of an outer object after the block that shadowed it ended
-	MaxRecDepth     int // max simultaneous invocations of one function
-	Calls           int
-	LoopIters       int
-	MaxBlockDepth   int
-	TableShadowStmt int            // id of the first executed table declaration that shadows an outer table (0: none)
-	Exec            map[string]int // executed statement kinds
-	ShadowKinds     map[string]int // shadowing declarations by object kind (v c t f p)
-	ReadAfterKinds  map[string]int
+	Steps             int
+	ShadowDecls       int // declarations that shadowed an outer object
+	ShadowReadAfter   int // uses of an outer object after the block that shadowed it ended
+	MaxRecDepth       int // max simultaneous invocations of one function
+	Calls             int
+	LoopIters         int
+	MaxBlockDepth     int
+	ErrDepth          int            // number of live blocks (1 = top level only) at the statement that raised the terminating error
+	DisposeUnshadow   int            // DISPOSE of an object that shadowed an outer one (the outer one is visible again)
+	DefaultOverShadow int            // DEFAULT values evaluated that read an earlier parameter which shadows a variable of the caller chain
+	TableShadowStmt   int            // id of the first executed table declaration that shadows an outer table (0: none)
+	Exec              map[string]int // executed statement kinds
+	ShadowKinds       map[string]int // shadowing declarations by object kind (v c t f p)
+	ReadAfterKinds    map[string]int
 }
 
 // PResult is the prediction.
@@ -565,8 +665,10 @@ func (in *interp) declare(kind byte, name string, f *pFrame, o *pObj, redecl str
 		f.shadows = append(f.shadows, outer)
 		in.st.ShadowDecls++
 		sk := string(kind)
-		if asParam {
+		if asParam && kind == 'v' {
 			sk = "p"
+		} else if asParam {
+			sk = "pseudo_cursor"
 		}
 		in.st.ShadowKinds[sk]++
 	}
@@ -582,10 +684,31 @@ func hasCall(e *PExpr) bool {
 	if e == nil {
 		return false
 	}
-	if e.K == "call" {
+	if e.K == "call" || e.K == "aggcall" {
 		return true
 	}
+	for _, a := range e.Args {
+		if hasCall(a) {
+			return true
+		}
+	}
 	return hasCall(e.A) || hasCall(e.B)
+}
+
+// mentionsVar: the expression reads variable name somewhere.
+func mentionsVar(e *PExpr, name string) bool {
+	if e == nil {
+		return false
+	}
+	if e.K == "var" && e.Name == name {
+		return true
+	}
+	for _, a := range e.Args {
+		if mentionsVar(a, name) {
+			return true
+		}
+	}
+	return mentionsVar(e.A, name) || mentionsVar(e.B, name)
 }
 
 const pMaxAbs = int64(1) << 40
@@ -625,17 +748,57 @@ func (in *interp) eval(e *PExpr, f *pFrame) (PVal, *pErr) {
 				return PVal{N: a.N * b.N}
 			}
 		})
-	case "call":
+	case "call", "aggcall":
 		fo, d := in.lookup('f', e.Name, f)
 		if d != nil {
 			return pNull, d
 		}
-		if hasCall(e.A) {
-			return pNull, pdiscard("nested_call_argument")
+		if fo != nil && (fo.decl.K == "agg") != (e.K == "aggcall") {
+			return pNull, pdiscard("scalar_aggregate_kind_mismatch")
 		}
-		arg, err := in.eval(e.A, f)
-		if err != nil && err.discard {
-			return pNull, err
+		var list []PVal
+		var terr *pErr
+		if e.K == "aggcall" {
+			if e.Tab != "" {
+				t, d := in.lookup('t', e.Tab, f)
+				if d != nil {
+					return pNull, d
+				}
+				if t == nil {
+					terr = perr(PErrUndeclTable)
+				} else {
+					list = append(list, t.rows...)
+				}
+			} else {
+				for _, r := range e.Rows {
+					list = append(list, PVal{N: r})
+				}
+			}
+		}
+		argExprs := CallArgs(e)
+		args := make([]PVal, len(argExprs))
+		var err *pErr
+		for i, a := range argExprs {
+			if hasCall(a) {
+				return pNull, pdiscard("nested_call_argument")
+			}
+			v, aerr := in.eval(a, f)
+			if aerr != nil && aerr.discard {
+				return pNull, aerr
+			}
+			if aerr != nil && err != nil && aerr.class != err.class {
+				return pNull, pdiscard("two_errors_in_call")
+			}
+			if aerr != nil && err == nil {
+				err = aerr
+			}
+			args[i] = v
+		}
+		if terr != nil {
+			if fo == nil || err != nil || !argCountOK(FuncParams(fo.decl), len(args)) {
+				return pNull, pdiscard("two_errors_in_call")
+			}
+			return pNull, terr
 		}
 		if fo == nil && err != nil {
 			return pNull, pdiscard("two_errors_in_call")
@@ -644,9 +807,12 @@ func (in *interp) eval(e *PExpr, f *pFrame) (PVal, *pErr) {
 			return pNull, perr(PErrUndeclFunc)
 		}
 		if err != nil {
+			if !argCountOK(FuncParams(fo.decl), len(args)) {
+				return pNull, pdiscard("two_errors_in_call")
+			}
 			return pNull, err
 		}
-		return in.invoke(fo, arg, f)
+		return in.invoke(fo, args, f, list)
 	case "tcount", "tmax":
 		o, d := in.lookup('t', e.Name, f)
 		if d != nil {
@@ -825,7 +991,18 @@ func (in *interp) inRange(o *pObj) (int, *pErr) {
 	return F, nil
 }
 
-func (in *interp) invoke(fo *pObj, arg PVal, caller *pFrame) (PVal, *pErr) {
+// argCountOK: the documented call syntax - all required parameters, then any prefix of the optional ones.
+func argCountOK(ps []PParam, n int) bool {
+	required := 0
+	for i, p := range ps {
+		if p.Def == nil {
+			required = i + 1
+		}
+	}
+	return n >= required && n <= len(ps)
+}
+
+func (in *interp) invoke(fo *pObj, args []PVal, caller *pFrame, list []PVal) (PVal, *pErr) {
 	in.depth++
 	defer func() { in.depth-- }()
 	if in.depth > in.opt.MaxDepth {
@@ -840,8 +1017,66 @@ func (in *interp) invoke(fo *pObj, arg PVal, caller *pFrame) (PVal, *pErr) {
 	fr := in.newFrame(caller, fo.frame)
 	fr.isInv = true
 	defer in.popFrame(fr)
-	if err := in.declare('v', fo.decl.Var, fr, &pObj{val: arg}, PErrRedeclVar, true); err != nil {
-		return pNull, err
+	ps := FuncParams(fo.decl)
+	if !argCountOK(ps, len(args)) {
+		return pNull, perr(PErrArgLength)
+	}
+	if fo.decl.K == "agg" {
+		// the grouped values are a cursor of THIS invocation's block: open, before the first record
+		in.st.Exec["call:aggregate"]++
+		pc := &pObj{open: true, view: list, idx: -1, pseudo: true}
+		if err := in.declare('c', fo.decl.Cur, fr, pc, PErrRedeclCur, true); err != nil {
+			return pNull, err
+		}
+	}
+	if len(ps) > 1 {
+		in.st.Exec["call:multi_param"]++
+	}
+	if len(ps) == 0 {
+		in.st.Exec["call:no_param"]++
+	}
+	// Every parameter is a variable of THIS invocation's block, bound in the order
+	// of the declaration: passed arguments first, then the DEFAULT value of each
+	// omitted optional parameter, evaluated inside the invocation so that it sees
+	// the parameters bound before it (and never a caller's variable of that name).
+	for i, p := range ps {
+		var v PVal
+		if i < len(args) {
+			v = args[i]
+		} else {
+			if hasCall(p.Def) {
+				return pNull, pdiscard("call_in_default_value")
+			}
+			own := false
+			for j, q := range ps {
+				if mentionsVar(p.Def, q.Name) {
+					if j >= i {
+						// a default that reads itself or a later parameter: what it sees is not documented
+						return pNull, pdiscard("default_reads_unbound_parameter")
+					}
+					own = true
+				}
+			}
+			dv, derr := in.eval(p.Def, fr)
+			if derr != nil {
+				return pNull, derr
+			}
+			v = dv
+			in.st.Exec["default:evaluated"]++
+			if own {
+				in.st.Exec["default:reads_earlier_parameter"]++
+				for j := 0; j < i; j++ {
+					if mentionsVar(p.Def, ps[j].Name) && findDyn('v', ps[j].Name, caller) != nil {
+						in.st.DefaultOverShadow++
+						in.st.Exec["default:reads_parameter_shadowing_caller_variable"]++
+						break
+					}
+				}
+			}
+		}
+		if err := in.declare('v', p.Name, fr, &pObj{val: v}, PErrRedeclVar, true); err != nil {
+			return pNull, pdiscard("duplicate_parameter")
+		}
 	}
 	in.retVal = pNull
 	flow, err := in.execBlock(fo.decl.Body, fr)
@@ -869,6 +1104,9 @@ func (in *interp) execBlock(stmts []PStmt, f *pFrame) (pFlow, *pErr) {
 	for i := range stmts {
 		flow, err := in.execStmt(&stmts[i], f)
 		if err != nil {
+			if !err.discard && in.st.ErrDepth == 0 {
+				in.st.ErrDepth = blockDepth(f)
+			}
 			return fNone, err
 		}
 		if flow != fNone {
@@ -1088,7 +1326,55 @@ func (in *interp) execStmt(s *PStmt, f *pFrame) (pFlow, *pErr) {
 	case "continue":
 		return fContinue, nil
 	case "exit":
+		if s.N > 0 {
+			return fNone, perr(PErrForcedExit + ":" + strconv.FormatInt(s.N, 10))
+		}
 		return fExit, nil
+	case "disposevar", "disposefun", "disposetab":
+		kind, missing := byte('v'), PErrUndeclVar
+		switch s.K {
+		case "disposefun":
+			kind, missing = 'f', PErrUndeclFunc
+		case "disposetab":
+			kind, missing = 't', PErrUndeclTemp
+		}
+		o, d := in.lookup(kind, s.Name, f)
+		if d != nil {
+			return fNone, d
+		}
+		if o == nil {
+			return fNone, perr(missing)
+		}
+		if kind == 'f' {
+			if o.active > 0 {
+				return fNone, pdiscard("dispose_of_running_function")
+			}
+			for x := f; x != o.frame; x = x.dyn {
+				if x.isInv {
+					// the effect on the other invocations / the caller is outside the model
+					return fNone, pdiscard("dispose_of_outer_function_in_function")
+				}
+			}
+		}
+		if o.frame != f {
+			in.st.Exec["dispose_outer:"+string(kind)]++
+		}
+		if findDyn(kind, s.Name, o.frame.dyn) != nil {
+			// the disposed object was shadowing an outer one, which is visible again from here on
+			in.st.Exec["dispose_unshadows:"+string(kind)]++
+			in.st.DisposeUnshadow++
+			kept := o.frame.shadows[:0]
+			for _, sh := range o.frame.shadows {
+				if !(sh.kind == kind && key(kind, sh.name) == key(kind, s.Name)) {
+					kept = append(kept, sh)
+				} else {
+					sh.released = true
+				}
+			}
+			o.frame.shadows = kept
+		}
+		delete(o.frame.objs, key(kind, s.Name))
+		return fNone, nil
 	case "return":
 		v, err := in.eval(s.E, f)
 		if err != nil {
@@ -1096,7 +1382,21 @@ func (in *interp) execStmt(s *PStmt, f *pFrame) (pFlow, *pErr) {
 		}
 		in.retVal = v
 		return fReturn, nil
-	case "func":
+	case "func", "agg":
+		ps := FuncParams(s)
+		optional := false
+		for i, p := range ps {
+			for j := 0; j < i; j++ {
+				if ps[j].Name == p.Name {
+					return fNone, pdiscard("duplicate_parameter")
+				}
+			}
+			if p.Def != nil {
+				optional = true
+			} else if optional {
+				return fNone, pdiscard("required_parameter_after_optional") // not in the grammar
+			}
+		}
 		return fNone, in.declare('f', s.Name, f, &pObj{decl: s}, PErrRedeclFunc, false)
 	case "table":
 		if outer := findDyn('t', s.Name, f.dyn); outer != nil {
@@ -1143,6 +1443,9 @@ func (in *interp) execStmt(s *PStmt, f *pFrame) (pFlow, *pErr) {
 		if o == nil {
 			return fNone, perr(PErrUndeclCur)
 		}
+		if o.pseudo {
+			return fNone, pdiscard("pseudo_cursor_operation")
+		}
 		if o.open {
 			return fNone, perr(PErrCurOpen)
 		}
@@ -1183,6 +1486,9 @@ func (in *interp) execStmt(s *PStmt, f *pFrame) (pFlow, *pErr) {
 		if o == nil {
 			return fNone, perr(PErrUndeclCur)
 		}
+		if o.pseudo {
+			return fNone, pdiscard("pseudo_cursor_operation")
+		}
 		if !o.open {
 			return fNone, pdiscard("close_of_closed_cursor")
 		}
@@ -1219,6 +1525,9 @@ func (in *interp) execStmt(s *PStmt, f *pFrame) (pFlow, *pErr) {
 		}
 		if o == nil {
 			return fNone, perr(PErrUndeclCur)
+		}
+		if o.pseudo {
+			return fNone, pdiscard("pseudo_cursor_operation")
 		}
 		delete(o.frame.objs, key('c', s.Name))
 		return fNone, nil
@@ -1352,6 +1661,33 @@ func RunProc(prog []PStmt, opt POpt) PResult {
 	return in.result(flow, err)
 }
 
+// RunProcSeq predicts the outcomes of executing the segments one after the
+// other on ONE session (as the interactive shell executes its inputs): what a
+// segment declared at the top level before it ended - normally or with an
+// error - stays, every block and invocation that was live when an error ended
+// the segment is gone.  Prediction stops (Discard "not_reached") after a
+// segment that is discarded or that ends with EXIT.
+func RunProcSeq(segs [][]PStmt, opt POpt) []PResult {
+	in := newInterp(opt)
+	out := make([]PResult, len(segs))
+	stopped := false
+	for i, seg := range segs {
+		if stopped {
+			out[i] = PResult{Discard: "not_reached"}
+			continue
+		}
+		in.out = nil
+		in.depth = 0
+		in.st = PStats{Exec: map[string]int{}, ShadowKinds: map[string]int{}, ReadAfterKinds: map[string]int{}}
+		flow, err := in.execBlock(seg, in.top)
+		out[i] = in.result(flow, err)
+		if out[i].Discard != "" || out[i].Exit || strings.HasPrefix(out[i].Err, PErrForcedExit) {
+			stopped = true
+		}
+	}
+	return out
+}
+
 // PCallResult is the prediction for one call evaluated after a procedure.
 type PCallResult struct {
 	Val     PVal
@@ -1362,6 +1698,13 @@ type PCallResult struct {
 // RunProcThenCalls executes prog and then evaluates fn(arg) for every arg in
 // the top-level block (as a SELECT over a table of args would).
 func RunProcThenCalls(prog []PStmt, fn string, args []int64, opt POpt) (PResult, map[int64]PCallResult) {
+	return RunProcThenCallsExtra(prog, fn, args, nil, false, opt)
+}
+
+// RunProcThenCallsExtra: the calls are fn(arg, extra...) - or, with multi, exactly
+// the argument list (arg, extra...) even when extra is empty; without multi and
+// without extra it is the one-argument call fn(arg).
+func RunProcThenCallsExtra(prog []PStmt, fn string, args []int64, extra []int64, multi bool, opt POpt) (PResult, map[int64]PCallResult) {
 	in := newInterp(opt)
 	flow, err := in.execBlock(prog, in.top)
 	res := in.result(flow, err)
@@ -1375,7 +1718,14 @@ func RunProcThenCalls(prog []PStmt, fn string, args []int64, opt POpt) (PResult,
 		}
 		in.st.Steps = 0
 		nout := len(in.out)
-		v, err := in.eval(&PExpr{K: "call", Name: fn, A: &PExpr{K: "lit", N: a}}, in.top)
+		call := &PExpr{K: "call", Name: fn, A: &PExpr{K: "lit", N: a}}
+		if multi || len(extra) > 0 {
+			call = &PExpr{K: "call", Name: fn, Multi: true, Args: []*PExpr{{K: "lit", N: a}}}
+			for _, x := range extra {
+				call.Args = append(call.Args, &PExpr{K: "lit", N: x})
+			}
+		}
+		v, err := in.eval(call, in.top)
 		cr := PCallResult{Val: v}
 		switch {
 		case err != nil && err.discard:
